@@ -16,11 +16,11 @@ E = {
                 props=["C02", "C22"], opts={"assess": 2.0, "assessSelf": 1.5, "upd": 0.5, "regen": 0.5}, focus={}),
     "C05": dict(title="update installs the constraint and weighs by the score change", strength="partial",
                 modules=["GenjaxVerif.Props.C05"],
-                theorems=["C05_update_weight", "C05_update_shape", "C05_leaf_update"],
+                theorems=["C05_update_weight", "C05_update_installs_constraint", "C05_update_keeps_unconstrained", "C05_update_shape", "C05_leaf_update"],
                 props=["C05"], opts={"upd": 4.0, "regen": 0.2, "proj": 0.2, "bwd": 0.2, "max_ops": 4}, focus={}),
     "C07": dict(title="regenerate resamples exactly the selected choices", strength="partial",
                 modules=["GenjaxVerif.Props.C07"],
-                theorems=["C07_regenerate_weight", "C07_leaf_regenerate", "C07_mask_switch_not_supported"],
+                theorems=["C07_regenerate_weight", "C07_unselected_unchanged", "C07_leaf_regenerate", "C07_mask_switch_not_supported"],
                 props=["C07"], opts={"regen": 4.0, "upd": 0.3, "proj": 0.2},
                 focus={"vmap": 0.2, "switch": 0.2, "mask": 0.2, "repeat": 0.2, "orelse": 0.2,
                        "masked_iterate": 0.1, "masked_iterate_final": 0.1, "scan": 2.0, "int": 2.0}),
@@ -37,7 +37,7 @@ E = {
                 focus={"mask": 12.0, "masked_iterate": 2.0, "masked_iterate_final": 2.0, "vmap": 2.0}),
     "C03": dict(title="importance weights equal the log-density of the constrained choices", strength="full",
                 modules=["GenjaxVerif.Props.C03"],
-                theorems=["C03_generate_weight", "C03_empty_constraint_weight_zero", "C03_leaf_generate",
+                theorems=["C03_generate_weight", "C03_trace_agrees_with_constraint", "C03_empty_constraint_weight_zero", "C03_leaf_generate",
                           "C03_score_when_all_constrained"],
                 props=["C03"], opts={"gen": 4.0, "start_gen": 0.9, "upd": 0.3, "regen": 0.2, "proj": 0.2, "masked": 0.2}, focus={}),
     "C06": dict(title="backward requests undo edits exactly", strength="partial",
@@ -53,14 +53,15 @@ E = {
     "C11": dict(title="vmap and repeat behave as independent elementwise calls", strength="full",
                 modules=["GenjaxVerif.Props.C11"],
                 theorems=["C11_vmap_elementwise", "C11_element_input", "C11_indexed_constraint_only_its_element",
-                          "C11_choices_under_index", "C11_zero_length", "C11_repeat_def", "C11_repeat_element_args"],
-                props=["C01", "C02", "C03", "C05"], opts={"upd": 1.5, "gen": 1.5, "regen": 0.1, "masked": 0.1},
+                          "C11_choices_under_index", "C11_zero_length", "C11_repeat_def", "C11_repeat_element_args",
+                          "C11_index_request_edits_one_element", "C11_index_update_weight"],
+                props=["C01", "C02", "C03", "C05", "C11"], opts={"upd": 1.5, "gen": 1.5, "regen": 0.1, "masked": 0.1, "idx": 2.5},
                 focus={"vmap": 10.0, "repeat": 6.0}, zero_len=0.12),
     "C12": dict(title="scan and its derived combinators match the documented Python loops", strength="full",
                 modules=["GenjaxVerif.Props.C12"],
                 theorems=["C12_scan_is_the_loop", "C12_final_carry", "C12_iteration_input", "C12_derived_defs",
-                          "C12_derived_return_maps"],
-                props=["C01", "C02", "C03", "C05", "C07"], opts={"upd": 1.5, "gen": 1.0, "regen": 1.0},
+                          "C12_derived_return_maps", "C12_index_edit"],
+                props=["C01", "C02", "C03", "C05", "C07", "C11"], opts={"upd": 1.5, "gen": 1.0, "regen": 1.0, "idx": 2.5},
                 focus={"scan": 8.0, "accumulate": 3.0, "reduce": 3.0, "iterate": 3.0, "iterate_final": 3.0}),
     "C13": dict(title="switch, or_else and mix follow exactly one branch consistently", strength="partial",
                 modules=["GenjaxVerif.Props.C13"],
